@@ -220,3 +220,9 @@ def r7(c):
     from rules import c12
     c12.r1(c)
     c12.r2(c)
+
+
+@rule('C10', 'R10.8', 'while not connected the queue keeps being serviced: every retry wait of the TCP and serial client tasks is spent in fail_requests_for (requests fail with NoConnection, commands are honoured) (C14/R14.3)')
+def r8(c):
+    from rules import c14
+    c14.r3(c)
